@@ -7,9 +7,9 @@ import PilotaModel.Idl.UnicodeTable
   as the chain `andThen p1 fun x1 => … andThen pn fun xn => ret (f …)`.
 
   The budget `d` is the number of nested *recursive* frames still allowed:
-  `Ty::parse` (through list / set / map), `ConstValue::parse` (through list / map literals) and
-  `IntConstant::parse` (through each leading `-`) take one unit per frame (a `ConstValue` frame
-  hands its own budget to the number parsers it calls).  `File.parse` starts
+  `Ty::parse` (through list / set / map) and `ConstValue::parse` (through list / map literals) take
+  one unit per frame; the number parsers do not recurse (fix 4f1981f: at most one sign).
+  `File.parse` starts
   with `input.length + 2`, which `Lemmas/IdlTotal.lean` shows is never exhausted.
 -/
 namespace Pilota.Idl
@@ -187,29 +187,32 @@ def parseI32Dec (ds : List Char) : Option Int :=
 def negI64 (v : Int) : Except String Int :=
   if v = i64Min then .error "IntConstant::parse: -d.0 overflows i64" else .ok (-v)
 
-def IntConstant.parse : Nat → P Int
-  | 0 => fun _ => .fuel
-  | d + 1 => alt [
-      skip (tag ['-']) (pmapChecked negI64 (IntConstant.parse d)),
-      skip (tag cs!"0x") (mapRes hexDigit1 parseI64Hex),
-      mapRes digit1 parseI64Dec]
+/-- the local `fn unsigned` of `IntConstant::parse`: `0x` hex digits, or decimal digits -/
+def IntConstant.unsigned : P Int := alt [
+  skip (tag cs!"0x") (mapRes hexDigit1 parseI64Hex),
+  mapRes digit1 parseI64Dec]
+
+/-- at most one sign (constant.rs: `alt((preceded(tag("-"), map(unsigned, |d| IntConstant(-d.0))), unsigned))`) -/
+def IntConstant.parse : P Int := alt [
+  skip (tag ['-']) (pmapChecked negI64 IntConstant.unsigned),
+  IntConstant.unsigned]
 
 /-- `tuple((tag_no_case("e"), IntConstant::parse))` -/
-def exponent (d : Nat) : P Unit :=
-  andThen (tagNoCase ['e']) fun _ => andThen (IntConstant.parse d) fun _ => ret ()
+def exponent : P Unit :=
+  andThen (tagNoCase ['e']) fun _ => andThen IntConstant.parse fun _ => ret ()
 
-def DoubleConstant.parse (d : Nat) : P Str :=
+def DoubleConstant.parse : P Str :=
   mapRes
     (recognize (
       andThen (opt (tag ['-'])) fun _ =>
       andThen (opt (tag ['+'])) fun _ =>
       alt [
         (andThen digit1 fun _ => andThen (tag ['.']) fun _ =>
-         andThen (opt digit1) fun _ => andThen (opt (exponent d)) fun _ => ret ()),
+         andThen (opt digit1) fun _ => andThen (opt exponent) fun _ => ret ()),
         (andThen (opt digit1) fun _ => andThen (tag ['.']) fun _ =>
-         andThen digit1 fun _ => andThen (opt (exponent d)) fun _ => ret ()),
+         andThen digit1 fun _ => andThen (opt exponent) fun _ => ret ()),
         (andThen digit1 fun _ => andThen (tagNoCase ['e']) fun _ =>
-         andThen (IntConstant.parse d) fun _ => ret ())]))
+         andThen IntConstant.parse fun _ => ret ())]))
     (fun t => some t)
 
 def ConstValue.parse : Nat → P ConstValue
@@ -219,8 +222,8 @@ def ConstValue.parse : Nat → P ConstValue
       keyword cs!"true" (ConstValue.bool true),
       keyword cs!"false" (ConstValue.bool false),
       pmap ConstValue.path Path.parse,
-      pmap ConstValue.double (DoubleConstant.parse (d + 1)),
-      pmap ConstValue.int (IntConstant.parse (d + 1)),
+      pmap ConstValue.double DoubleConstant.parse,
+      pmap ConstValue.int IntConstant.parse,
       (andThen (tag ['[']) fun _ =>
        andThen (many0 (
          andThen (opt blank) fun _ =>
@@ -304,24 +307,24 @@ def Exception.parse (d : Nat) : P StructLike :=
 
 /-! ### enum_.rs -/
 
-def EnumValue.parse (d : Nat) : P EnumValue :=
+def EnumValue.parse : P EnumValue :=
   andThen Ident.parse fun name =>
   andThen (opt blank) fun _ =>
-  andThen (opt (andThen (tag ['=']) fun _ => andThen (opt blank) fun _ => IntConstant.parse d)) fun value =>
+  andThen (opt (andThen (tag ['=']) fun _ => andThen (opt blank) fun _ => IntConstant.parse)) fun value =>
   andThen (opt blank) fun _ =>
   andThen (opt Annotations.parse) fun anns =>
   andThen (opt listSeparator) fun _ =>
   andThen (opt blank) fun _ =>
   ret { name := name, value := value, annotations := anns.getD [] }
 
-def Enum.parse (d : Nat) : P Enum :=
+def Enum.parse : P Enum :=
   andThen (tag cs!"enum") fun _ =>
   andThen blank fun _ =>
   andThen Ident.parse fun name =>
   andThen (opt blank) fun _ =>
   andThen (tag ['{']) fun _ =>
   andThen (opt blank) fun _ =>
-  andThen (many0 (EnumValue.parse d)) fun values =>
+  andThen (many0 EnumValue.parse) fun values =>
   andThen (opt blank) fun _ =>
   andThen (tag ['}']) fun _ =>
   andThen (opt blank) fun _ =>
@@ -429,7 +432,7 @@ def Item.parse (d : Nat) : P Item :=
     else if kw = cs!"namespace" then pmap Item.namespace Namespace.parse
     else if kw = cs!"typedef" then pmap Item.typedef (Typedef.parse d)
     else if kw = cs!"const" then pmap Item.constant (Constant.parse d)
-    else if kw = cs!"enum" then pmap Item.enum (Enum.parse d)
+    else if kw = cs!"enum" then pmap Item.enum Enum.parse
     else if kw = cs!"struct" then pmap Item.struct (Struct.parse d)
     else if kw = cs!"union" then pmap Item.union (Union.parse d)
     else if kw = cs!"exception" then pmap Item.exception (Exception.parse d)
@@ -443,6 +446,8 @@ def packageOf : List Item → Option Path
   | _ :: rest => packageOf rest
 
 def File.parseD (d : Nat) : P File :=
+  /- `let (input, _) = opt(blank)(input)?;` (fix 00dcdf5: a document may consist of blanks alone) -/
+  andThen (opt blank) fun _ =>
   pmap (fun x => { package := packageOf x.1, items := x.1 })
     (manyTill (andThen (opt blank) fun _ => andThen (Item.parse d) fun item => andThen (opt blank) fun _ => ret item) eof)
 
